@@ -906,6 +906,10 @@ func (h *H) DropMeasurement(meas string) string {
 // mode: full | import | export:<lo>:<hi>
 func (h *H) BackupRestore(mode string, series []string, fields []string) string {
 	h.SnapRelease()
+	// "+top": the destination is not empty — it holds a measurement of its own, already saved
+	// in a file and in its field set, when the archive arrives
+	onTop := strings.HasSuffix(mode, "+top")
+	mode = strings.TrimSuffix(mode, "+top")
 	var buf bytes.Buffer
 	lo, hi := int64(math.MinInt64), int64(math.MaxInt64)
 	var err error
@@ -929,6 +933,14 @@ func (h *H) BackupRestore(mode string, series []string, fields []string) string 
 		return "err:dest:" + strings.ReplaceAll(err.Error(), " ", "_")
 	}
 	defer d.Close()
+	if onTop {
+		if w := d.Write("own|host=z|1600000000000000500|q=i77"); w != "ok" {
+			return "err:dest-write:" + w
+		}
+		if s := d.Snapshot(); s != "ok" {
+			return "err:dest-snapshot:" + s
+		}
+	}
 	if mode == "import" {
 		err = d.Store.ImportShard(ShardID, &buf)
 	} else {
@@ -954,6 +966,12 @@ func (h *H) BackupRestore(mode string, series []string, fields []string) string 
 				return "restored-read " + sr + "/" + f + " " + r
 			}
 			parts = append(parts, x[0]+":"+x[1])
+		}
+	}
+	if onTop && mode == "import" {
+		// imported as new generations: what the destination held is still there
+		if r := d.Read("own", "host=z", "q", math.MinInt64+2, math.MaxInt64-1, true); !strings.HasPrefix(r, "n=1 ") {
+			return "restored-read own|host=z/q " + r
 		}
 	}
 	return strings.Join(parts, " ")
